@@ -1,5 +1,6 @@
 import MTfitVerif.Model.RatioPdf
 import MTfitVerif.Real.LogPSem
+import MTfitVerif.Real.RatioPdfLemmas
 /-
   C03 — the amplitude-ratio likelihood is the density of |X/Y| for two independent Gaussians.
   Property theorems only; helpers in `Real/RatioPdfLemmas.lean`.
@@ -9,8 +10,8 @@ open MTfitVerif LogP RatioPdf Real
 
 /-- Hinkley's coefficient `a` is strictly positive, so every divisor in the closed form is
     non-zero: the density is defined (no 0/0) for every positive `σx, σy`. -/
-theorem coefA_pos (z : ℝ) {σx σy : ℝ} (hx : 0 < σx) (hy : 0 < σy) : 0 < coefA z σx σy := by
-  sorry
+theorem coefA_pos (z : ℝ) {σx σy : ℝ} (hx : 0 < σx) (hy : 0 < σy) : 0 < coefA z σx σy :=
+  RatioPdf.coefA_pos z hx hy
 
 /-- the algebraic heart of Hinkley's derivation: completing the square in `y` -/
 theorem exponent_identity (z μx μy : ℝ) {σx σy : ℝ} (hx : 0 < σx) (hy : 0 < σy) (y : ℝ) :
@@ -18,7 +19,10 @@ theorem exponent_identity (z μx μy : ℝ) {σx σy : ℝ} (hx : 0 < σx) (hy :
     let b := coefB z μx μy σx σy
     let cc := coefC μx μy σx σy
     (z * y - μx)^2 / σx^2 + (y - μy)^2 / σy^2 = a^2 * (y - b / a^2)^2 + cc - b^2 / a^2 := by
-  sorry
+  intro a b cc
+  simp only [a, b, cc]
+  rw [coefA_sq z hx hy, coefB_eq, coefC_eq]
+  exact complete_square z μx μy hx hy y
 
 /-- Cauchy–Schwarz: the exponent of `d` is never positive (`d ≤ 1`, no overflow) -/
 theorem d_exponent_nonpos (z μx μy : ℝ) {σx σy : ℝ} (hx : 0 < σx) (hy : 0 < σy) :
@@ -26,7 +30,14 @@ theorem d_exponent_nonpos (z μx μy : ℝ) {σx σy : ℝ} (hx : 0 < σx) (hy :
     let b := coefB z μx μy σx σy
     let cc := coefC μx μy σx σy
     (b * b - cc * (a * a)) / (2 * (a * a)) ≤ 0 := by
-  sorry
+  intro a b cc
+  have ha : 0 < a := RatioPdf.coefA_pos z hx hy
+  apply div_nonpos_of_nonpos_of_nonneg
+  · have h := cauchy_schwarz z μx μy hx hy
+    simp only [a, b, cc]
+    rw [coefA_mul_self z hx hy, coefB_eq, coefC_eq]
+    linarith
+  · positivity
 
 /-- the constant prefactor relation `d · e^{-b²/2a²} = e^{-c/2}` used in the factorisation -/
 theorem d_factor (z μx μy : ℝ) {σx σy : ℝ} (hx : 0 < σx) (hy : 0 < σy) :
@@ -34,46 +45,88 @@ theorem d_factor (z μx μy : ℝ) {σx σy : ℝ} (hx : 0 < σx) (hy : 0 < σy)
     let b := coefB z μx μy σx σy
     let cc := coefC μx μy σx σy
     Real.exp ((b * b - cc * (a * a)) / (2 * (a * a))) * Real.exp (-(b^2) / (2 * a^2)) = Real.exp (-cc / 2) := by
-  sorry
+  intro a b cc
+  have ha : a ≠ 0 := (RatioPdf.coefA_pos z hx hy).ne'
+  rw [← Real.exp_add]
+  congr 1
+  field_simp
+  ring
 
 /-- `b · (Φ(b/a) − Φ(−b/a)) ≥ 0` -/
 theorem b_cdf_term_nonneg (b : ℝ) {a : ℝ} (ha : 0 < a) :
-    0 ≤ b * (stdCdf (b / a) - stdCdf (-b / a)) := by
-  sorry
+    0 ≤ b * (stdCdf (b / a) - stdCdf (-b / a)) :=
+  RatioPdf.b_cdf_term_nonneg b ha
 
 /-- non-negativity (indeed positivity) of the closed-form density -/
 theorem ratioPdf_pos (z μx μy : ℝ) {σx σy : ℝ} (hx : 0 < σx) (hy : 0 < σy) :
     0 < ratioPdf z μx μy σx σy := by
-  sorry
+  rw [ratioPdf_eq]
+  have ha : 0 < coefA z σx σy := RatioPdf.coefA_pos z hx hy
+  have hb := RatioPdf.b_cdf_term_nonneg (coefB z μx μy σx σy) ha
+  generalize coefA z σx σy = a at *
+  generalize coefB z μx μy σx σy = b at *
+  generalize coefC μx μy σx σy = cc at *
+  generalize stdCdf (b / a) - stdCdf (-b / a) = t at *
+  have h2 : 0 < 1 / (π * (σx * σy * (a * a))) * Real.exp (-cc / 2) := by positivity
+  have h1 : 0 ≤ b * Real.exp ((b * b - cc * (a * a)) / (2 * (a * a)))
+      / (√(2 * π) * (σx * σy * (a * (a * a)))) * t := by
+    have e : b * Real.exp ((b * b - cc * (a * a)) / (2 * (a * a)))
+        / (√(2 * π) * (σx * σy * (a * (a * a)))) * t
+        = (b * t) * (Real.exp ((b * b - cc * (a * a)) / (2 * (a * a)))
+        / (√(2 * π) * (σx * σy * (a * (a * a))))) := by ring
+    rw [e]
+    exact mul_nonneg hb (by positivity)
+  linarith
 
 theorem arPdf_nonneg (r μx μy px py : ℝ) : 0 ≤ arPdf r μx μy px py := by
-  sorry
+  rw [arPdf_eq]
+  split
+  · exact le_rfl
+  · rename_i h
+    have h := not_or.mp h
+    have hsx : 0 < errFix px * |μx| := mul_pos (errFix_pos px) (abs_pos.mpr h.1)
+    have hsy : 0 < errFix py * |μy| := mul_pos (errFix_pos py) (abs_pos.mpr h.2)
+    exact (add_pos (ratioPdf_pos r _ _ hsx hsy) (ratioPdf_pos (-r) _ _ hsx hsy)).le
 
 /-- the likelihood depends on the modelled amplitudes only through their magnitudes -/
 theorem arPdf_abs (r μx μy px py : ℝ) : arPdf r μx μy px py = arPdf r |μx| |μy| px py := by
-  sorry
+  rw [arPdf_eq, arPdf_eq]
+  simp only [abs_abs, abs_eq_zero]
 
 theorem arPdf_neg_left (r μx μy px py : ℝ) : arPdf r (-μx) μy px py = arPdf r μx μy px py := by
-  sorry
+  rw [arPdf_eq, arPdf_eq]
+  simp only [abs_neg, neg_eq_zero]
 
 theorem arPdf_neg_right (r μx μy px py : ℝ) : arPdf r μx (-μy) px py = arPdf r μx μy px py := by
-  sorry
+  rw [arPdf_eq, arPdf_eq]
+  simp only [abs_neg, neg_eq_zero]
 
 /-- symmetric in the sign of the observed ratio -/
 theorem arPdf_neg_ratio (r μx μy px py : ℝ) : arPdf (-r) μx μy px py = arPdf r μx μy px py := by
-  sorry
+  rw [arPdf_eq, arPdf_eq, neg_neg]
+  split
+  · rfl
+  · exact add_comm _ _
 
 /-- for non-zero modelled amplitudes and any fractional error (zero included: it is replaced by
     `10⁻²⁴`) both standard deviations are strictly positive, so the density is defined and
     strictly positive: finite and NaN-free -/
 theorem arPdf_pos (r : ℝ) {μx μy : ℝ} (hμx : μx ≠ 0) (hμy : μy ≠ 0) (px py : ℝ) :
     0 < arPdf r μx μy px py := by
-  sorry
+  rw [arPdf_eq, if_neg (not_or.mpr ⟨hμx, hμy⟩)]
+  have hsx : 0 < errFix px * |μx| := mul_pos (errFix_pos px) (abs_pos.mpr hμx)
+  have hsy : 0 < errFix py * |μy| := mul_pos (errFix_pos py) (abs_pos.mpr hμy)
+  exact add_pos (ratioPdf_pos r _ _ hsx hsy) (ratioPdf_pos (-r) _ _ hsx hsy)
 
 /-- sum of logs over stations = log of the product of the station densities -/
 theorem lnArAt_toProb (sts : List (ArStation ℝ)) (k : Nat) (mt : List ℝ) :
     toProb (lnArAt sts k mt)
       = (sts.map fun s => arPdf s.ratio (dot (s.cx.getD k []) mt) (dot (s.cy.getD k []) mt) s.px s.py).prod := by
-  sorry
+  unfold lnArAt
+  rw [toProb_sum, List.map_map]
+  congr 1
+  apply List.map_congr_left
+  intro s _
+  exact toProb_ofProb (arPdf_nonneg _ _ _ _ _)
 
 end MTfitVerif.C03
